@@ -94,11 +94,12 @@ template <class M> static std::string hm(M const& m) {
 //    (3,5: isFeasible/closestFeasible are overridden, the IS_CONSTRAINED feature is NOT announced: the single-objective
 //     optimizers refuse announced constraints in checkFeatures although they evaluate through PenalizingEvaluator)
 //  7 = 3 with the constraint handler announced (expected: "Can not solve constrained problems")
+//  13 = 5 and 14 = 3 started from an INFEASIBLE point whose raw objective value is below every feasible value
 struct Obj : public SingleObjectiveFunction {
 	int fid; std::size_t n; double scale; bool boxed; BoxConstraintHandler<RealVector> handler;
 	Obj(int f, std::size_t nn, double s) : fid(f), n(nn), scale(s), boxed(false) {
-		if (fid == 3 || fid == 7) { handler.setBounds(n, 0.0, 4.0); boxed = true; }
-		if (fid == 5) { handler.setBounds(n, -1.0, 1.0); boxed = true; }
+		if (fid == 3 || fid == 7 || fid == 14) { handler.setBounds(n, 0.0, 4.0); boxed = true; }
+		if (fid == 5 || fid == 13) { handler.setBounds(n, -1.0, 1.0); boxed = true; }
 		if (fid == 7) announceConstraintHandler(&handler);
 		m_features |= CAN_PROPOSE_STARTING_POINT;
 	}
@@ -109,6 +110,9 @@ struct Obj : public SingleObjectiveFunction {
 	SearchPointType proposeStartingPoint() const {
 		RealVector x(n);
 		for (std::size_t i = 0; i < n; ++i) x(i) = (fid == 3 || fid == 7) ? random::uni(*mep_rng, 0.0, 4.0) : (fid == 5 ? random::uni(*mep_rng, -1.0, 1.0) : random::uni(*mep_rng, -3.0, 3.0));
+		// 13 / 14: the boxed objectives 5 / 3 with an INFEASIBLE starting point whose raw value is below every feasible value
+		if (fid == 13) for (std::size_t i = 0; i < n; ++i) x(i) = random::uni(*mep_rng, 1.5, 4.0);
+		if (fid == 14) for (std::size_t i = 0; i < n; ++i) x(i) = random::uni(*mep_rng, -1.75, -0.5);
 		return x;
 	}
 	double raw(RealVector const& x) const {
@@ -117,9 +121,9 @@ struct Obj : public SingleObjectiveFunction {
 		case 0: for (std::size_t i = 0; i < n; ++i) s += x(i) * x(i); return s;
 		case 1: for (std::size_t i = 0; i < n; ++i) s += double(1 << (i % 6)) * x(i) * x(i); return s;
 		case 2: for (std::size_t i = 0; i + 1 < n; ++i) { double a = x(i + 1) - x(i) * x(i), b = 1 - x(i); s += 100 * a * a + b * b; } return s;
-		case 3: case 7: for (std::size_t i = 0; i < n; ++i) s += (x(i) + 1.0) * (x(i) + 1.0); return s;
+		case 3: case 7: case 14: for (std::size_t i = 0; i < n; ++i) s += (x(i) + 1.0) * (x(i) + 1.0); return s;
 		case 4: s = x(0) * x(0); for (std::size_t i = 1; i < n; ++i) s += 1024.0 * x(i) * x(i); return s;
-		case 5: for (std::size_t i = 0; i < n; ++i) s -= x(i); return s;
+		case 5: case 13: for (std::size_t i = 0; i < n; ++i) s -= x(i); return s;
 		case 6: for (std::size_t i = 0; i < n; ++i) s += x(i) * x(i); return std::sqrt(std::sqrt(s));
 		// objectives of the NM / XCOR streams only (ties, plateaus, constants, values beyond the 1e100 literal of SimplexDownhill::init)
 		case 8: for (std::size_t i = 0; i < n; ++i) s += x(i) * x(i); return std::floor(s);
